@@ -163,13 +163,23 @@ func TestVerif_C05_RoleConflictSolo(t *testing.T) {
 			role = otherRole
 		}
 		to := s.ag.socks[0]
+		// an opposite-role request may carry, behind MESSAGE-INTEGRITY (appended by anybody on the path), a role
+		// attribute claiming the receiver's role: what the request authentically carries is the opposite role
+		var trailing []stun.Setter
+		if !sameRole && rapid.IntRange(0, 2).Draw(rt, "ownRoleBehindIntegrity") == 0 {
+			if controlling {
+				trailing = []stun.Setter{AttrControlling(^uint64(0))}
+			} else {
+				trailing = []stun.Setter{AttrControlled(0)}
+			}
+		}
 		req := simBuildRequest(simReqOpts{
 			username: s.ag.ufrag + ":" + s.peer.ufrag, key: s.ag.pwd, role: role, tiebreaker: Tp,
-			useCand: useCand, priority: 1234, fingerprint: true,
+			useCand: useCand, priority: 1234, fingerprint: true, trailing: trailing,
 		})
 		s.inject(s.eps[0], to, req.Raw)
 		out := s.w.emittedSince(from, 0)
-		desc := fmt.Sprintf("agent role=%s lite=%v T=%d; request role=%s T'=%d useCandidate=%v knownSource=%v preConnected=%v", ownRole, lite, T, role, Tp, useCand, known, preConnected)
+		desc := fmt.Sprintf("agent role=%s lite=%v T=%d; request role=%s T'=%d useCandidate=%v knownSource=%v preConnected=%v ownRoleBehindIntegrity=%v", ownRole, lite, T, role, Tp, useCand, known, preConnected, len(trailing) > 0)
 		adjacent := T == Tp || T+1 == Tp || T-1 == Tp
 		boundary := false
 		for _, b := range c05Boundaries {
@@ -177,7 +187,7 @@ func TestVerif_C05_RoleConflictSolo(t *testing.T) {
 				boundary = true
 			}
 		}
-		st.Record(vfHashStr(desc), sameRole && (adjacent || boundary), fmt.Sprintf("sameRole:%v", sameRole), fmt.Sprintf("adjacent:%v", adjacent), fmt.Sprintf("lite:%v", lite), fmt.Sprintf("handler:%v", withHandler))
+		st.Record(vfHashStr(desc), sameRole && (adjacent || boundary), fmt.Sprintf("sameRole:%v", sameRole), fmt.Sprintf("adjacent:%v", adjacent), fmt.Sprintf("lite:%v", lite), fmt.Sprintf("handler:%v", withHandler), fmt.Sprintf("roleBehindIntegrity:%v", len(trailing) > 0))
 		if sameRole && adjacent && st.WantSample() {
 			st.Sample(func() string { return desc })
 		}
@@ -195,7 +205,12 @@ func TestVerif_C05_RoleConflictSolo(t *testing.T) {
 		nErr, errD := countClass(stun.ClassErrorResponse)
 		if !sameRole {
 			if nSucc != 1 || nErr != 0 {
-				st.Fail(rt, "C05/opposite-role/not-treated-as-check", "%s: %d success / %d error responses emitted, want 1/0", desc, nSucc, nErr)
+				sig := "C05/opposite-role/not-treated-as-check"
+				if len(trailing) > 0 {
+					// D43 (known finding): attributes behind MESSAGE-INTEGRITY are honoured
+					sig = "C05/opposite-role/role-attribute-behind-message-integrity"
+				}
+				st.Fail(rt, sig, "%s: %d success / %d error responses emitted, want 1/0", desc, nSucc, nErr)
 			}
 
 			return
